@@ -53,9 +53,14 @@ Uri(a, k, via) == IF via = 0 THEN <<a, KeyName(k)>> ELSE <<a, KeyName(via), KeyN
 
 (* the property: the rule of account a in force on the confirmed chain exists and is satisfied *)
 Authorised(kf, a, uri) == conf[a] # 0 /\ A!Sat(kf, ConfEnv, a, <<uri>>)
-(* what verifyRWSetPermission admits *)
+(* what verifyRWSetPermission admits in ACTUAL beyond that *)
 Admitted(a, uri) == \/ Authorised(KF_IntermediateAKCounts, a, uri)
                     \/ (conf[a] = 0 /\ KF_UnconfirmedAccountOpen)
+(* the outcomes of a rule change: the IDEAL one; with a deviation enabled also the deviating one (a named  *)
+(* deviation is a disjunct: a tree in which the defect is repaired is still explained, without using it)  *)
+Outcomes(exists, a, uri) ==
+  IF ~exists THEN {"pre_fail"}
+  ELSE {IF Authorised(FALSE, a, uri) THEN "accept" ELSE "reject"} \cup (IF Admitted(a, uri) THEN {"accept"} ELSE {})
 
 S0 == [conf |-> [a \in Accts |-> 0], pend |-> [a \in Accts |-> 0]]
 Init == /\ conf = S0.conf /\ pend = S0.pend /\ mconf = 0 /\ mpend = 0 /\ own = "none" /\ viol = {} /\ hist = <<>>
@@ -72,12 +77,12 @@ New(a, r, k) ==
 
 (* $acl.SetAccountAcl(a, rule r) with AuthRequire = [Uri(a, k, via)], signed by key k *)
 Set(a, r, k, via) ==
-  LET uri == Uri(a, k, via)
-      res == IF pend[a] = 0 THEN "pre_fail" ELSE IF Admitted(a, uri) THEN "accept" ELSE "reject" IN
-  /\ pend' = IF res = "accept" THEN [pend EXCEPT ![a] = r] ELSE pend
-  /\ viol' = IF res = "accept" /\ ~Authorised(FALSE, a, uri) THEN viol \cup {"account"} ELSE viol
-  /\ UNCHANGED <<conf, mconf, mpend, own>>
-  /\ Log([op |-> "set", a |-> a, r |-> r, k |-> k, via |-> via, res |-> res])
+  LET uri == Uri(a, k, via) IN
+  \E res \in Outcomes(pend[a] # 0, a, uri) :
+    /\ pend' = IF res = "accept" THEN [pend EXCEPT ![a] = r] ELSE pend
+    /\ viol' = IF res = "accept" /\ ~Authorised(FALSE, a, uri) THEN viol \cup {"account"} ELSE viol
+    /\ UNCHANGED <<conf, mconf, mpend, own>>
+    /\ Log([op |-> "set", a |-> a, r |-> r, k |-> k, via |-> via, res |-> res])
 
 (* the contract is bound to its owning account (write of XCContract2Account, as a deployment does); *)
 (* the property does not speak about it: permitted iff the owner's rule is satisfied or it has none  *)
@@ -90,12 +95,12 @@ Bind(k) ==
 (* $acl.SetMethodAcl(contract, method, rule r) with AuthRequire = [Uri(Owner, k, via)], signed by k: *)
 (* the binding must be confirmed and the owning account's confirmed rule satisfied                   *)
 SetM(r, k, via) ==
-  LET uri == Uri(Owner, k, via)
-      res == IF own = "confirmed" /\ Admitted(Owner, uri) THEN "accept" ELSE "reject" IN
-  /\ mpend' = IF res = "accept" THEN r ELSE mpend
-  /\ viol' = IF res = "accept" /\ ~Authorised(FALSE, Owner, uri) THEN viol \cup {"method"} ELSE viol
-  /\ UNCHANGED <<conf, pend, mconf, own>>
-  /\ Log([op |-> "setm", r |-> r, k |-> k, via |-> via, res |-> res])
+  LET uri == Uri(Owner, k, via) IN
+  \E res \in (IF own = "confirmed" THEN Outcomes(TRUE, Owner, uri) ELSE {"reject"}) :
+    /\ mpend' = IF res = "accept" THEN r ELSE mpend
+    /\ viol' = IF res = "accept" /\ ~Authorised(FALSE, Owner, uri) THEN viol \cup {"method"} ELSE viol
+    /\ UNCHANGED <<conf, pend, mconf, own>>
+    /\ Log([op |-> "setm", r |-> r, k |-> k, via |-> via, res |-> res])
 
 (* a call of the contract method sent and signed by key k: the method rule in force on the confirmed chain *)
 Call(k) ==
